@@ -711,9 +711,7 @@ Proof.
         unfold get. cbn [index_of]. destruct (eq_dec S S); [|congruence]. reflexivity.
       * cbn [obind fold_left]. rewrite Ed. cbn [obind]. exact Ef.
     + (* keyed join *)
-      rewrite <- Ea in *. assert (on_a <> []) as Na by (rewrite Ea; discriminate). clear Ea a0 on_a'.
-      assert (forall (A : Type) (x1 x2 : A), match on_a with [] => x1 | _ :: _ => x2 end = x2) as Mo by (intros; destruct on_a; [congruence|reflexivity]).
-      rewrite (Mo _ (Some (unused_column_name base_merge_col names)) None). cbn zeta. intros H.
+      cbv beta iota zeta. rewrite <- Ea in *. clear Ea a0 on_a'. intros H.
       destruct (pd_merge (how_of jt) l r on_a on_b sfx) as [res0|] eqn:Em; cbn [obind] in H; [|discriminate].
       unfold clean_copy, pd_reset_index in H.
       destruct (fold_left _ common (Some res0)) as [res2|] eqn:Ef; cbn [obind] in H; [|discriminate]. inversion H; subst x. clear H.
